@@ -40,6 +40,8 @@ func catalogue() []schedScenario {
 	yp := sc("S13:sum by (l)(a)/yields", `sum by (l)(a)`, 2, 2, 1, 2)
 	yp.YieldPoints = true
 	yp.StoreYield = true
+	ms := sc("S14:a{l=0}+a/merged selects", `a{l="0"} + a`, 4, 2, 1, 2)
+	ms.Case.O.Optimizers = ""
 	return []schedScenario{
 		sc("S1:a/2shards", `a`, 4, 2, 2, 3),
 		s2,
@@ -54,7 +56,7 @@ func catalogue() []schedScenario {
 		sc("S8:a@10+a", `a @ 10 + a`, 2, 2, 1, 2),
 		sc("S9a:a/31steps", `a`, 2, 31, 1, 2),
 		sc("S9b:sum by (l)(a)/31steps", `sum by (l)(a)`, 2, 31, 1, 1),
-		dist, inst, pp, yp,
+		dist, inst, pp, yp, ms,
 	}
 }
 
@@ -257,6 +259,20 @@ func init() {
 			runSched(c, &s, "C14", events, cancelOracle)
 			if c.Expired() || c.Rep.HarnessErr != "" {
 				return
+			}
+			// the same over a storage that fails every callback with the context's error
+			// once cancelled (both sides of a binary operator then fail while loading)
+			if id == "S1" || id == "S4a" || id == "S6a" || id == "S6c" || id == "S8" || id == "S3" {
+				sx := s
+				sx.Name = s.Name + "/storectx"
+				sx.StoreCtx = true
+				if sx.Case.W.NSteps() > 2 && id != "S6a" {
+					sx.Case.W = core.Range(10000, 30000, 2)
+				}
+				runSched(c, &sx, "C14", []string{"ctx-cancel"}, cancelOracle)
+				if c.Expired() || c.Rep.HarnessErr != "" {
+					return
+				}
 			}
 		}
 		// a context that is already cancelled when Exec starts
